@@ -162,6 +162,7 @@ type gmPKI struct {
 type leafOpt struct {
 	cn        string
 	dns       []string
+	ips       []net.IP
 	ku        x509.KeyUsage
 	eku       []x509.ExtKeyUsage
 	keyID     int
@@ -179,7 +180,7 @@ func (p *gmPKI) issue(o leafOpt) gmtls.Certificate {
 	if na.IsZero() {
 		na = tlsEpoch.Add(24 * time.Hour)
 	}
-	t := &x509.Certificate{SerialNumber: big.NewInt(p.serial), Subject: pkix.Name{CommonName: o.cn}, DNSNames: o.dns,
+	t := &x509.Certificate{SerialNumber: big.NewInt(p.serial), Subject: pkix.Name{CommonName: o.cn}, DNSNames: o.dns, IPAddresses: o.ips,
 		NotBefore: nb, NotAfter: na, KeyUsage: o.ku, ExtKeyUsage: o.eku, SignatureAlgorithm: x509.SM2WithSM3}
 	der, err := x509.CreateCertificate(t, p.ca, &key.PublicKey, p.caKey)
 	if err != nil {
